@@ -39,7 +39,7 @@ PANDAS = ('pandas (ASSUMED, pyvc/pandas_model.py): DataFrame abstraction (column
           'df[list], df[mask], dropna, itertuples, unique, isnull, DataFrame(rows, columns=), concat, set_index')
 PSM = ('py_stringmatching (ASSUMED, contracts/externals.py): tokenize is deterministic and duplicate-free in set mode; '
        'get_raw_score returns simval_M(|A&B|, |A|, |B|) with the float formula of the installed version')
-LEMMA_INJ = ('lemma inj_image (pure mathematics, ASSUMED, not machine-checked): an injective rank map defined on all '
+LEMMA_INJ = ('lemma inj_image (pure mathematics; proved in Lean, lemmas/Lemmas.lean; statement correspondence trusted): an injective rank map defined on all '
              'tokens preserves set sizes and intersection sizes; ranks(o, tokens) names the (pure) result of order_using_token_ordering')
 
 PROPS['C17'] = dict(functions=['py_stringsimjoin.profiler.profiler.profile_table_for_join',
@@ -56,8 +56,8 @@ OVF = 'py_stringsimjoin.filter.overlap_filter.OverlapFilter.'
 OVERLAP_CORE = [OVI + '__init__', OVI + 'build', OVF + '__init__', OVF + 'find_candidates',
                 'py_stringsimjoin.filter.overlap_filter._filter_tables_split']
 OVERLAP_API = [OVF + 'filter_pair', OVF + 'filter_tables', 'py_stringsimjoin.join.overlap_join_py.overlap_join_py']
-LEMMA_CNT = ('spec definitions memV / cntV / isectV (match counting) with two ASSUMED induction facts: 0 <= cntV(a,b,p) <= p and '
-             'cntV(a,b,p) = 0 when a is empty')
+LEMMA_CNT = ('spec definitions memV / cntV / isectV (match counting) with two induction facts (proved in Lean, lemmas/Lemmas.lean; '
+             'statement correspondence trusted): 0 <= cntV(a,b,p) <= p and cntV(a,b,p) = 0 when a is empty')
 
 SZI = 'py_stringsimjoin.index.size_index.SizeIndex.'
 SZF = 'py_stringsimjoin.filter.size_filter.SizeFilter.'
@@ -92,7 +92,7 @@ PREFIX_TABLES = ['py_stringsimjoin.filter.prefix_filter._filter_tables_split', P
 TO = 'py_stringsimjoin.utils.token_ordering.'
 ORDERING = [TO + 'gen_token_ordering_for_tables', TO + 'order_using_token_ordering']
 PAR = [GH + 'split_table', GH + 'get_num_processes_to_launch']
-LEMMA_PP = ('two facts of pure mathematics are ASSUMED for PrefixFilter.filter_tables: the prefix principle (duplicate-free lists with '
+LEMMA_PP = ('two facts of pure mathematics (proved in Lean, lemmas/Lemmas.lean; statement correspondence trusted) are used for PrefixFilter.filter_tables: the prefix principle (duplicate-free lists with '
             'overlap >= max(n-p+1, m-q+1) >= 1 share a rank within their first p and q sorted ranks) and its converse direction '
             '(a shared rank is a shared token under an injective order)')
 
